@@ -162,6 +162,16 @@ func (s *ScriptServer) CloseAllConns() {
 	}
 }
 
+// CloseAllConnsExceptNewest closes every open connection but the most recently accepted one.
+func (s *ScriptServer) CloseAllConnsExceptNewest() {
+	cs := s.Conns()
+	for i, c := range cs {
+		if i < len(cs)-1 && c.Closed.Load() == 0 {
+			c.Close()
+		}
+	}
+}
+
 // Stop closes the listener and all connections.
 func (s *ScriptServer) Stop() {
 	s.closed.Store(true)
